@@ -1487,6 +1487,9 @@ write_gvar_data(Relocation *cur, Initializer *init, Type *ty, char *buf, int off
   uint64_t val = eval2(init->expr, &label);
 
   if (!label) {
+    // Conversion to _Bool compares with zero; it does not truncate.
+    if (ty->kind == TY_BOOL)
+      val = is_flonum(init->expr->ty) ? eval_double(init->expr) != 0 : val != 0;
     write_buf(buf + offset, val, ty->size);
     return cur;
   }
